@@ -565,8 +565,11 @@ func runE2E(w *rec.Writer, d caseDesc, wmu *sync.Mutex) {
 			// finding shared_admission_cancel_leak: with shared iterators on, a request whose own context
 			// was never cancelled joins a storage item whose producer ran under an earlier, cancelled
 			// request's context and is told "cancelled" (deterministic reproduction: class D)
+			// ListObjects elides cancellation errors of its sub-evaluations ("current list objects behavior
+			// is to elide context cancelation errors"), so there the leaked error shows as a shorter list.
 			if pair == "on_shared" && faulted > 0 && !strings.HasPrefix(a, "E:") &&
-				(o.ans == "E:"+errText(serverErrCancelled) || o.ans == "E:"+errText(serverErrDeadline)) {
+				(o.ans == "E:"+errText(serverErrCancelled) || o.ans == "E:"+errText(serverErrDeadline) ||
+					(o.q.list && properSubset(o.ans, a))) {
 				leaks++
 				if firstLeak == "" {
 					firstLeak = fmt.Sprintf("%s: cached=%s uncached=%s", k, o.ans, a)
@@ -624,4 +627,26 @@ func runE2EBatch(w *rec.Writer, seed uint64, n int) {
 		w.Stat("C.datastore_iterators_opened", int(s.ds.opened.Load()))
 	}
 	e2eMu.Unlock()
+}
+
+// properSubset: both arguments are rendered object lists "[a,b,c]"; the first one is a strict subset.
+func properSubset(x, y string) bool {
+	if len(x) < 2 || len(y) < 2 || x[0] != '[' || y[0] != '[' {
+		return false
+	}
+	set := map[string]bool{}
+	for _, e := range strings.Split(y[1:len(y)-1], ",") {
+		set[e] = true
+	}
+	n := 0
+	for _, e := range strings.Split(x[1:len(x)-1], ",") {
+		if e == "" {
+			continue
+		}
+		if !set[e] {
+			return false
+		}
+		n++
+	}
+	return n < len(set)
 }
